@@ -8,5 +8,8 @@ from excel2pycl.src.utilities.helper import get_flatten_list
 class IfsControlConstructionTokenTranslator(AbstractTranslator):
     @classmethod
     def translate(cls, token: IfsControlConstructionToken, excel: Excel, context: Context) -> str:
-        flatten_list = get_flatten_list(token, excel, context)
-        return context.set_sub_cell(token.in_cell, f'self._ifs({flatten_list})')
+        from excel2pycl.src.translators.expression_token_translator import ExpressionTokenTranslator
+        # every condition and value is deferred: only the value of the first true condition is evaluated
+        pairs = '[' + ', '.join(
+            f'lambda: {ExpressionTokenTranslator.translate(i, excel, context)}' for i in token.expressions) + ']'
+        return context.set_sub_cell(token.in_cell, f'self._ifs({pairs})')
